@@ -133,8 +133,10 @@ func (q *DateRangeStringQuery) Searcher(ctx context.Context, i index.IndexReader
 }
 
 func (q *DateRangeStringQuery) parseEndpoints(startTime, endTime time.Time) (*float64, *float64, error) {
-	min := math.Inf(-1)
-	max := math.Inf(1)
+	// an open end is the end of the int64 nanosecond range, carried like every other bound as the float64
+	// with that bit pattern: ±Inf is not an end of it (the bit pattern of +Inf is a date in February 2262)
+	min := numeric.Int64ToFloat64(math.MinInt64)
+	max := numeric.Int64ToFloat64(math.MaxInt64)
 
 	if startTime.IsZero() && endTime.IsZero() {
 		return nil, nil, fmt.Errorf("date range query must specify at least one of start/end")
